@@ -1,19 +1,35 @@
 /- GENERATED: instance obligations for one logic, discharged by kernel evaluation.
-   `X ⊆ known`: every failing row is a committed known finding (Ptx/Gen/Known.lean). -/
+   `S` = the logic with its DOCUMENTED tables (Ptx/Sem/Spec.lean); rules, closure, trunk and frames
+   are what the translator read off the code.  `X ⊆ known`: every failing row is a committed
+   known finding (Ptx/Gen/Known.lean, generated from known_findings.json). -/
 import Ptx.Gen.L_KRM3
 import Ptx.Gen.Known
 import Ptx.Sem.Subset
+import Ptx.Props.C01
+import Ptx.Gen.L_RM3
 namespace Ptx.Gen.Obl.KRM3
 open Ptx
 
-theorem tables_total : Gen.KRM3.tablesTotalB = true := by decide +kernel
-theorem rules_exact : subsetB Gen.KRM3.badRules (Known.badRules "KRM3") = true := by decide +kernel
-theorem rules_sound : subsetB Gen.KRM3.unsoundRules (Known.unsoundRules "KRM3") = true := by decide +kernel
-theorem rules_total : subsetB Gen.KRM3.missingRules (Known.missingRules "KRM3") = true := by decide +kernel
-theorem rules_local : Gen.KRM3.nonLocalRules = [] := by decide +kernel
-theorem closure_total : Gen.KRM3.closureTotalB = true := by decide +kernel
-theorem closure_exact : subsetB Gen.KRM3.badClosure (Known.badClosure "KRM3") = true := by decide +kernel
-theorem read_total : Gen.KRM3.readTotalB = true := by decide +kernel
-theorem read_exact : subsetB Gen.KRM3.badRead (Known.badRead "KRM3") = true := by decide +kernel
+/-- a modal / first-order extension has exactly the truth-functional tables of its base (RM3) -/
+theorem base_tables : Gen.KRM3.tables.sameTF Gen.RM3.tables = true := by decide +kernel
+theorem spec_defined : Gen.KRM3.specDefinedB = true := by decide +kernel
+theorem tables_spec : subsetB Gen.KRM3.tableDiff (Known.tableDiff "KRM3") = true := by decide +kernel
+theorem defined_ops : Gen.KRM3.tables.definedOpsBad = [] := by decide +kernel
+theorem tables_total : Gen.KRM3.sem.tablesTotalB = true := by decide +kernel
+theorem rules_exact : subsetB Gen.KRM3.sem.badRules (Known.badRules "KRM3") = true := by decide +kernel
+theorem rules_sound : subsetB Gen.KRM3.sem.unsoundRules (Known.unsoundRules "KRM3") = true := by decide +kernel
+theorem rules_total : subsetB Gen.KRM3.sem.missingRules (Known.missingRules "KRM3") = true := by decide +kernel
+theorem rules_local : Gen.KRM3.sem.nonLocalRules = [] := by decide +kernel
+theorem closure_total : Gen.KRM3.sem.closureTotalB = true := by decide +kernel
+theorem closure_exact : subsetB Gen.KRM3.sem.badClosure (Known.badClosure "KRM3") = true := by decide +kernel
+theorem read_total : Gen.KRM3.sem.readTotalB = true := by decide +kernel
+theorem read_exact : subsetB Gen.KRM3.sem.badRead (Known.badRead "KRM3") = true := by decide +kernel
+theorem sound_core : Gen.KRM3.sem.soundCoreB = true := by decide +kernel
+
+/-- C01 for this logic: a closed tableau reached by any legal derivation has no countermodel. -/
+theorem c01_valid_sound (arg : Argument) (t : Tableau)
+    (hd : Deriv Gen.KRM3.sem.soundPart.noQuantPart (trunk Gen.KRM3.sem arg) t) (hclosed : t.allClosed = true)
+    (M : Struct) (hM : M.Interp Gen.KRM3.sem) (e : Env M.D) (w0 : M.W) : ¬ Countermodel Gen.KRM3.sem M e w0 arg :=
+  Props.C01.C01_valid_sound_partial Gen.KRM3.sem sound_core arg t hd hclosed M hM e w0
 
 end Ptx.Gen.Obl.KRM3
